@@ -2,7 +2,12 @@ import ast
 
 from guppylang_internals.ast_util import find_nodes, get_type, loop_in_ast
 from guppylang_internals.checker.cfg_checker import CheckedBB, CheckedCFG
-from guppylang_internals.checker.core import Place, contains_subscript
+from guppylang_internals.checker.core import (
+    Place,
+    SubscriptAccess,
+    Variable,
+    contains_subscript,
+)
 from guppylang_internals.checker.errors.generic import (
     InvalidUnderDagger,
     UnsupportedError,
@@ -112,6 +117,10 @@ class BBUnitaryChecker(ast.NodeVisitor):
             raise GuppyError(InvalidUnderDagger(node, "Assignment"))
         if node.value is not None:
             self.visit(node.value)
+        # Subscripted assignment targets evaluate their index expressions
+        targets = node.targets if isinstance(node, ast.Assign) else [node.target]
+        for target in targets:
+            self.visit(target)
 
     def visit_AnnAssign(self, node: ast.AnnAssign) -> None:
         self._check_assign(node)
@@ -127,6 +136,14 @@ class BBUnitaryChecker(ast.NodeVisitor):
             raise GuppyError(
                 UnsupportedError(node, "index access", True, "dagger context")
             )
+        # The index expressions of subscripts on the way to the place are evaluated
+        # whenever the place is used, so calls nested in them are subject to the same
+        # constraints (the place itself is not an AST child of this node)
+        place = node.place
+        while not isinstance(place, Variable):
+            if isinstance(place, SubscriptAccess):
+                self.visit(place.item_expr)
+            place = place.parent
 
 
 def check_cfg_unitary(
